@@ -120,6 +120,8 @@ class _Codegen:
             return f"jnp.logical_not({self.py(e[1])})"
         if op == "ite":
             return f"jnp.where({self.py(e[1])}, {self.py(e[2])}, {self.py(e[3])})"
+        if op == "ssum":
+            return f"jnp.sum(jnp.array([{', '.join(self.py(x) for x in e[1:])}]))"
         if op == "tab":
             name = f"_TAB{len(self.tables)}"
             self.tables[name] = self.table_literal(e[2])
